@@ -77,9 +77,12 @@ Definition dur_div_int (d n : Z) : outcome Z :=
 Definition dur_mul_int (d n : Z) : outcome Z := chk_i site_dur_mul 128 ((d * (n * FRAC)) / FRAC).
 
 (** Time + Duration, Time - Duration, Time - Time *)
+(** Time + Duration saturates at 0 and at the largest U96F32 value (it used
+    to panic / wrap: defect F7, repaired in /repo). *)
+Definition TIME_MAX : Z := 2 ^ 128 - 1.
 Definition time_add_dur (t d : Z) : outcome Z :=
-  if d <? 0 then chk_u site_time_sub 128 (t - Z.abs d)
-  else chk_u site_time_add 128 (t + Z.abs d).
+  if d <? 0 then Ok (Z.max 0 (t - Z.abs d))
+  else Ok (Z.min TIME_MAX (t + Z.abs d)).
 Definition time_sub_dur (t d : Z) : outcome Z :=
   let! nd := dur_neg d in time_add_dur t nd.
 Definition dur_from_time (t : Z) : outcome Z := chk_i site_time_diff 128 t.
